@@ -71,7 +71,12 @@ def canon(o):
         return {"t": "ad", "idx": repr(o.indexes), "str": _str(o)}
     if isinstance(o, Script):
         return {"t": "script", "hex": o.data.hex()}
-    return {"t": "other", "r": repr(o)}
+    if isinstance(o, tuple):
+        return {"t": "tuple", "v": [canon(x) for x in o]}
+    # any other object (generic operations `g_*` over classes / functions the translator points at): a picture of its
+    # attributes without addresses, class-level containers seen through the instance included
+    import sharedstate
+    return {"t": "generic", "v": sharedstate.stable(o)}
 
 
 def _str(o):
@@ -209,7 +214,7 @@ def op(name, reads=(), defines=None, modifies=()):
 
 def meta(o):
     reads, defines, modifies, _ = OPS[o["op"]]
-    return ([o[r] for r in reads if o.get(r) is not None], (o[defines] if defines else None),
+    return ([o[r] for r in reads if o.get(r) is not None], (o.get(defines) if defines else None),
             [o[m] for m in modifies if o.get(m) is not None])
 
 
@@ -596,10 +601,12 @@ def _(w, o):
     return [d.owns(i) for i in p.inputs] + [d.owns(x) for x in p.outputs]
 
 
-@op("native")
+@op("native", defines="dst")
 def _(w, o):
     """calls of the binding layer whose results C writes into buffers the wrapper builds: a buffer that is a shared
-    object (a literal, a default) shows in LATER, unrelated answers - the calls themselves return the right values"""
+    object (a literal, a default) shows in LATER, unrelated answers - the calls themselves return the right values.
+    With "dst" the caller KEEPS the objects the binding handed back (raw 64/65-byte structures included) in a pool slot:
+    a later binding call that writes into the same buffer changes what the caller holds"""
     import hashlib
     from embit import ec
     secp = ec.secp256k1
@@ -608,22 +615,103 @@ def _(w, o):
     kind = o["fn"]
     if kind == "recoverable":
         sig = secp.ecdsa_sign_recoverable(msg, secret)
-        return list(secp.ecdsa_recoverable_signature_serialize_compact(sig))
-    if kind == "ecdsa":
+        keep = [sig] + list(secp.ecdsa_recoverable_signature_serialize_compact(sig))
+        res = keep[1:]
+    elif kind == "ecdsa":
         sig = secp.ecdsa_sign(msg, secret)
-        return [secp.ecdsa_signature_serialize_der(sig), secp.ecdsa_signature_serialize_compact(sig)]
-    if kind == "pubkey":
+        res = [secp.ecdsa_signature_serialize_der(sig), secp.ecdsa_signature_serialize_compact(sig)]
+        keep = [sig] + res
+    elif kind == "pubkey":
         pub = secp.ec_pubkey_create(secret)
-        return [secp.ec_pubkey_serialize(pub), secp.ec_pubkey_serialize(pub, secp.EC_UNCOMPRESSED)]
-    if kind == "schnorr":
-        return [secp.schnorrsig_sign(msg, secret)]
-    if kind == "xonly":
+        res = [secp.ec_pubkey_serialize(pub), secp.ec_pubkey_serialize(pub, secp.EC_UNCOMPRESSED)]
+        keep = [pub] + res
+    elif kind == "schnorr":
+        res = [secp.schnorrsig_sign(msg, secret)]
+        keep = res
+    elif kind == "xonly":
         pub = secp.ec_pubkey_create(secret)
         x, parity = secp.xonly_pubkey_from_pubkey(pub)
-        return [secp.xonly_pubkey_serialize(x), int(parity)]
-    if kind == "tweak":
-        return [secp.ec_privkey_add(secret, msg), secp.ec_pubkey_serialize(secp.ec_pubkey_add(secp.ec_pubkey_create(secret), msg))]
-    raise Bad("unknown native call")
+        res = [bytes(bytearray(x)), int(parity)]
+        keep = [pub, x]
+    elif kind == "tweak":
+        res = [secp.ec_privkey_add(secret, msg), secp.ec_pubkey_serialize(secp.ec_pubkey_add(secp.ec_pubkey_create(secret), msg))]
+        keep = res
+    else:
+        raise Bad("unknown native call")
+    if o.get("dst"):
+        w[o["dst"]] = keep
+    return res
+
+
+# ---- generic operations over the classes / functions the shared-state translator points at (harness/sharedstate.py):
+#      the history language of the fixed operations above speaks about a dozen classes; a hazard found elsewhere
+#      (a class-level container, a cached factory, a function that writes module state) gets its concrete history here
+
+@op("g_new", defines="dst")
+def _(w, o):
+    """an instance of `cls` ("embit.script.Witness") built with default arguments / the translator's fixture"""
+    import sharedstate
+    w[o["dst"]] = sharedstate.build_instance(o["cls"])
+
+
+@op("g_mutate", modifies=("obj",))
+def _(w, o):
+    """the caller's own act on a container attribute of ITS object: obj.attr.append(..) / obj.attr[k] = v"""
+    import sharedstate
+    x = w.get(o["obj"])
+    if x is None or not hasattr(x, o["attr"]):
+        raise Bad("no attribute %s" % o["attr"])
+    c = getattr(x, o["attr"])
+    if not isinstance(c, (list, dict, set, bytearray)):
+        raise Bad("attribute %s is not a container" % o["attr"])
+    if isinstance(c, list):
+        # an element of the kind the container holds (so that the object can still be serialised / observed)
+        known = {"vin": lambda: mk_input(1), "vout": lambda: mk_output(1), "items": lambda: b"\x01"}
+        c.append(c[-1] if c else known.get(o["attr"], lambda: 1)())
+    else:
+        sharedstate.touch(c)
+
+
+@op("g_call", defines="dst")
+def _(w, o):
+    """fn(*args) with the translator's argument tuple nr. `variant`; the caller keeps what it gets back"""
+    import sharedstate
+    cands = sharedstate.candidates(o["fn"])
+    if not (0 <= o["variant"] < len(cands)):
+        raise Bad("no such variant")
+    r = sharedstate.invoke(o["fn"], cands[o["variant"]])
+    if o.get("dst"):
+        w[o["dst"]] = r
+    return canon(r)
+
+
+@op("g_mcall", reads=("obj",), defines="dst")
+def _(w, o):
+    """obj.method(*args) on a pool object with the translator's argument tuple nr. `variant`"""
+    import sharedstate
+    x = w.get(o["obj"])
+    if x is None:
+        raise Bad("no slot")
+    cands = sharedstate.candidates(o["fn"])
+    if not (0 <= o["variant"] < len(cands)):
+        raise Bad("no such variant")
+    r = sharedstate.invoke(o["fn"], cands[o["variant"]], recv=x)
+    if o.get("dst"):
+        w[o["dst"]] = r
+    return canon(r)
+
+
+@op("g_touch", modifies=("obj",))
+def _(w, o):
+    """the caller edits, in place, an object it holds (something a call handed back)"""
+    import sharedstate
+    x = w.get(o["obj"])
+    if x is None:
+        raise Bad("no slot")
+    try:
+        sharedstate.touch(x)
+    except RuntimeError as e:
+        raise Bad(str(e))
 
 
 # ------------------------------------------------------------------------------------------------ execution
